@@ -206,3 +206,5 @@ fn(HF + ':get_indent', props=['C12'],
 # `unknown`.  The clause is covered by the bounded clause indent-equals-depth; see DESIGN.md section 11.
 
 # (second attempt after the conjunction change: 76 of 323 obligations within a 240 s budget; withdrawn again)
+# (third attempt after slicing / quantifier hygiene / absolute-position strings: 162 of 998 obligations within 400 s,
+#  every query carries the facts of five to ten contract calls and takes 1-3 s: withdrawn a third time)
